@@ -243,6 +243,8 @@ enum Use {
     ValueThroughCalls,
     /// the only parameter is an array sized by a constant EXPRESSION: one party per element
     SingleArrayPartiesConstExpr,
+    /// a parameter, a `let` and a loop variable with the constant's name shadow it (as a factor, an operand)
+    ShadowedValue,
 }
 
 /// (source using const R, source with the value substituted, number of input parties description)
@@ -272,6 +274,12 @@ fn use_sources(u: Use, t: CTy, rname: &str, rval: i128) -> Option<(String, Strin
             format!("pub fn main(a: [u8; const {{ {rname} + 1usize }}]) -> u8 {{\n  let mut s = 1u8;\n  for e in a {{\n    s = s ^ e;\n  }}\n  s\n}}\n"),
             format!("pub fn main(a: [u8; {}]) -> u8 {{\n  let mut s = 1u8;\n  for e in a {{\n    s = s ^ e;\n  }}\n  s\n}}\n", n + 1),
         ),
+        Use::ShadowedValue => {
+            let (op, mul) = if t == CTy::Bool { ("^", "&") } else { ("+", "*") };
+            let rest = format!("  let {rname} = y;\n  let mut acc = x;\n  for {rname} in [x] {{\n    acc = acc ^ ({rname} {mul} y);\n  }}\n  (before, x {mul} {rname}, acc, scaled(y, x))\n}}\n");
+            let head = format!("fn scaled({rname}: {tn}, x: {tn}) -> {tn} {{\n  x {mul} {rname}\n}}\npub fn main(x: {tn}, y: {tn}) -> ({tn}, {tn}, {tn}, {tn}) {{\n");
+            (format!("{head}  let before = x {op} {rname};\n{rest}"), format!("{head}  let before = x {op} {rl};\n{rest}"))
+        }
         Use::ValueThroughCalls => (
             format!("fn inner(x: {tn}) -> {tn} {{\n  x ^ {rname}\n}}\nfn outer({rname}: {tn}, x: {tn}) -> {tn} {{\n  inner(x) & {rname}\n}}\npub fn main(x: {tn}, y: {tn}) -> ({tn}, {tn}) {{\n  (outer(y, x), inner(y))\n}}\n"),
             format!("fn inner(x: {tn}) -> {tn} {{\n  x ^ {rl}\n}}\nfn outer({rname}: {tn}, x: {tn}) -> {tn} {{\n  inner(x) & {rname}\n}}\npub fn main(x: {tn}, y: {tn}) -> ({tn}, {tn}) {{\n  (outer(y, x), inner(y))\n}}\n"),
@@ -349,7 +357,7 @@ fn input_sets(u: Use, t: CTy, size: usize) -> Vec<Vec<Vec<bool>>> {
                 vals.iter().map(|v| vec![crate::gast::Val::Int(*v, it).bits(&crate::gast::Defs::default())]).collect()
             }
         },
-        Use::ValueThroughCalls => {
+        Use::ValueThroughCalls | Use::ShadowedValue => {
             let one: Vec<Vec<bool>> = match t {
                 CTy::Bool => vec![vec![false], vec![true]],
                 CTy::Int(it) => {
@@ -867,11 +875,12 @@ pub fn run(tier: Tier) -> i32 {
             }
             let exts: Vec<_> = exts.into_iter().collect();
             let uses: Vec<Use> = match t {
-                CTy::Int(IntTy::Usize) => vec![Use::ArrayTypeSize, Use::Repeat, Use::SingleArrayParties, Use::LoopCount, Use::Value, Use::Index, Use::ConstExprSize, Use::RepeatLet, Use::RepeatFailing, Use::ValueThroughCalls, Use::SingleArrayPartiesConstExpr],
+                CTy::Int(IntTy::Usize) => vec![Use::ArrayTypeSize, Use::Repeat, Use::SingleArrayParties, Use::LoopCount, Use::Value, Use::Index, Use::ConstExprSize, Use::RepeatLet, Use::RepeatFailing, Use::ValueThroughCalls, Use::SingleArrayPartiesConstExpr, Use::ShadowedValue],
+                CTy::Int(IntTy::U8) | CTy::Bool => vec![Use::Value, Use::ValueThroughCalls, Use::ShadowedValue],
                 _ => vec![Use::Value, Use::ValueThroughCalls],
             };
             for u in uses {
-                let size_use = !matches!(u, Use::Value | Use::Index | Use::ValueThroughCalls);
+                let size_use = !matches!(u, Use::Value | Use::Index | Use::ValueThroughCalls | Use::ShadowedValue);
                 let alphabet: Vec<i128> = match t {
                     CTy::Bool => vec![0, 1],
                     // (R + 1 elements: MAX would wrap to an empty array in the constant version only)
